@@ -215,10 +215,12 @@ CLAIMED = {
              "by the regex engine on the text the writer emits, extract exactly the writer's statements — every iteration "
              "order), `roundtrip_text` (hence reading back the TEXT gives the same inputs/outputs and a circuit that refines "
              "the original), `parse_canonical` (a well-formed netlist written one statement per line in canonical layout, "
-             "lines in any order, DFF lines included, is parsed into exactly its statements). These are theorems about "
+             "lines in any order, DFF lines included, is parsed into exactly its statements), `parse_free` (the same for free "
+             "layout: per statement upper- or lower-case keywords, buf/buff, any white space incl. CR/LF/tab at every gap the "
+             "patterns allow, wrapped operand lists). These are theorems about "
              "CG/Regex.lean running the patterns extracted from io.py (`tables_regex` by rfl; the pattern parser is total and "
-             "kernel-evaluated). PARTIAL: arbitrary layouts (extra blanks, tabs, lower-case keywords, several statements per "
-             "line) and the engine-vs-CPython-`re` tie are differential: engine and reader/writer are compared with `re` and "
+             "kernel-evaluated). PARTIAL: several statements per line, leading/trailing blanks of a line "
+             "and the engine-vs-CPython-`re` tie are differential: engine and reader/writer are compared with `re` and "
              "with bench_to_circuit/circuit_to_bench on generated texts every run.",
         note=TRUST + " CPython `re` is modelled by CG/Regex.lean.",
         ref="§4 C15"),
